@@ -1,7 +1,7 @@
 (* C15: filters/propagateAnchors.py -- _propagate_glyph_anchors, _get_anchor_data, _adjust_anchors -- as executable
    Gallina.  One composite at a time (`propagate_step`, its components already done) and the whole memoised recursion
-   (`propagate`).  Not modelled: the promotion of one mark to base in a mark made only of marks ("circumflexcomb_tildecomb":
-   decided by outline bounds) -- `propagate_step` answers None there and the check leaves such glyphs out.  Definitions only. *)
+   (`propagate`).  In a mark made only of marks ("circumflexcomb_tildecomb") one mark is promoted to base; WHICH one is decided
+   by outline bounds and is an input of the model (`promo`); without it `propagate_step` answers None there.  Definitions only. *)
 From Coq Require Import QArith Qcanon.
 From U2F Require Import Base.Prelude Geometry.Model.
 
@@ -81,15 +81,35 @@ Definition present (gs : glyphset) (c : str * affine) : bool := match lookup (fs
 Definition comp_is_mark (gs : glyphset) (c : str * affine) : bool :=
   match lookup (fst c) gs with Some g => is_mark_glyph g | None => false end.
 
-(* the anchors to add to composite g (its components' glyphs, in gs, already carry their propagated anchors) *)
-Definition to_add (gs : glyphset) (g : glyph) : anchors :=
-  let comps := filter (present gs) (gcomps g) in
-  let marks := filter (comp_is_mark gs) comps in
-  let bases := filter (fun c => negb (comp_is_mark gs c)) comps in
+(* the anchors to add to composite g (its components' glyphs, in gs, already carry their propagated anchors), given which of
+   its components act as bases and which as attaching marks *)
+Definition to_add_with (gs : glyphset) (g : glyph) (bases marks : list (str * affine)) : anchors :=
   let names := sort_str (dedup (flat_map (fun c => match lookup (fst c) gs with Some b => map fst (ganchors b) | None => [] end) bases)) in
   let t := fold_left (fun acc n => if existsb (fun a => prefix n (fst a)) (ganchors g) then acc
                                    else get_anchor_data gs bases n acc) names [] in
   fold_left (adjust gs) marks t.
+
+Definition bases_of (gs : glyphset) (g : glyph) : list (str * affine) :=
+  filter (fun c => negb (comp_is_mark gs c)) (filter (present gs) (gcomps g)).
+Definition marks_of (gs : glyphset) (g : glyph) : list (str * affine) :=
+  filter (comp_is_mark gs) (filter (present gs) (gcomps g)).
+
+Definition to_add (gs : glyphset) (g : glyph) : anchors := to_add_with gs g (bases_of gs g) (marks_of gs g).
+
+(* a mark made only of marks: the k-th mark component is promoted to base (`mark_components.remove(component)`,
+   `base_components.append(component)`); WHICH one -- the component whose outline reaches closest to the origin -- is decided
+   by outline bounds and is an input of the model *)
+Fixpoint remove_nth {A} (k : nat) (l : list A) : list A :=
+  match l, k with
+  | [], _ => []
+  | _ :: r, O => r
+  | x :: r, S k' => x :: remove_nth k' r
+  end.
+Definition to_add_promoted (gs : glyphset) (g : glyph) (k : nat) : anchors :=
+  match nth_error (marks_of gs g) k with
+  | Some c => to_add_with gs g (bases_of gs g ++ [c]) (remove_nth k (marks_of gs g))
+  | None => to_add gs g
+  end.
 
 Definition sorted_items (l : anchors) : anchors :=
   flat_map (fun k => match assoc k l with Some v => [(k, v)] | None => [] end) (sort_str (keys l)).
@@ -104,13 +124,22 @@ Definition promotes (gs : glyphset) (name : str) (g : glyph) : bool :=
   && (match filter (fun c => negb (comp_is_mark gs c)) comps with [] => true | _ => false end)
   && is_ligature_mark name.
 
-Definition propagate_step (gs : glyphset) (mark_names : list str) (name : str) (g : glyph) : option glyph :=
+(* promo: for the marks made only of marks, the index (among the mark components) of the component to promote; a glyph that
+   needs one and has none is outside the model (None) *)
+Definition propagate_step_p (gs : glyphset) (mark_names : list str) (promo : list (str * nat)) (name : str) (g : glyph) : option glyph :=
   if skipped mark_names name g then Some g
-  else if promotes gs name g then None
+  else if promotes gs name g then
+    match assoc name promo with
+    | None => None
+    | Some k => Some (mkG (gcontours g) (gcomps g) (gwidth g) (ganchors g ++ sorted_items (to_add_promoted gs g k)))
+    end
   else Some (mkG (gcontours g) (gcomps g) (gwidth g) (ganchors g ++ sorted_items (to_add gs g))).
 
+Definition propagate_step (gs : glyphset) (mark_names : list str) (name : str) (g : glyph) : option glyph :=
+  propagate_step_p gs mark_names [] name g.
+
 (* the memoised recursion: components first, each glyph once; None = a glyph the model does not cover was met *)
-Fixpoint propagate (fuel : nat) (mark_names : list str) (st : option (glyphset * list str)) (name : str)
+Fixpoint propagate_p (fuel : nat) (mark_names : list str) (promo : list (str * nat)) (st : option (glyphset * list str)) (name : str)
   : option (glyphset * list str) :=
   match fuel, st with
   | _, None => None
@@ -122,12 +151,12 @@ Fixpoint propagate (fuel : nat) (mark_names : list str) (st : option (glyphset *
            | Some g =>
                if skipped mark_names name g then Some (gs, name :: done)
                else match fold_left (fun st c => match st with
-                                                 | Some (gs1, _) => if present gs1 c then propagate f mark_names st (fst c) else st
+                                                 | Some (gs1, _) => if present gs1 c then propagate_p f mark_names promo st (fst c) else st
                                                  | None => None end)
                                     (gcomps g) (Some (gs, name :: done)) with
                     | None => None
                     | Some (gs1, done1) =>
-                        match propagate_step gs1 mark_names name g with
+                        match propagate_step_p gs1 mark_names promo name g with
                         | None => None
                         | Some g' => Some (set_glyph name g' gs1, done1)
                         end
@@ -135,8 +164,13 @@ Fixpoint propagate (fuel : nat) (mark_names : list str) (st : option (glyphset *
            end
   end.
 
+Definition propagate (fuel : nat) (mark_names : list str) := propagate_p fuel mark_names [].
+
+Definition propagate_all_p (mark_names : list str) (promo : list (str * nat)) (included : list str) (gs : glyphset) : option glyphset :=
+  option_map fst (fold_left (propagate_p (S (length gs)) mark_names promo) included (Some (gs, []))).
+
 Definition propagate_all (mark_names : list str) (included : list str) (gs : glyphset) : option glyphset :=
-  option_map fst (fold_left (propagate (S (length gs)) mark_names) included (Some (gs, []))).
+  propagate_all_p mark_names [] included gs.
 
 (* comparison with the filter's output: every glyph's anchors, in order *)
 Definition anchors_eqb (a b : anchors) : bool :=
